@@ -90,7 +90,7 @@ def gen_plan(rng, tier, focus):
         return qs
 
     gb_mode = {"count": "none", "groups": "directed", "roundtrip": "directed"}[focus]
-    nsmall = 40 if tier == "quick" else 300
+    nsmall = 30 if tier == "quick" else 300
     for _ in range(nsmall):
         ds = dp.small_dataset(rng, new_id())
         plan.append((ds, add_queries(ds, 25, gb_mode)))
@@ -110,17 +110,24 @@ def gen_plan(rng, tier, focus):
                 for m in dp.MODES:
                     qs.append(dp.Query("%s.s%d" % (ds.did, len(qs)), ds, w, m, dp.e_eq(b"a", b"1"), cols, 1))
             plan.append((ds, qs + add_queries(ds, 10, gb_mode)))
+    # column names that are prefixes of each other (the pre-hash encoding must separate them)
+    for sep in dp.SEPARATORS:
+        ds = dp.prefix_dataset(new_id(), sep)
+        plan.append((ds, add_queries(ds, 6, gb_mode)))
+    # the same in-memory writer flushed twice
+    for n in ([5, 1200] if tier == "quick" else [5, 999, 1200, 2500]):
+        ds = dp.shaped_dataset(rng, new_id(), n, unique=(focus != "count")) if n > 5 else dp.small_dataset(rng, new_id(), hostile=False)
+        plan.append((ds, add_queries(ds, 6, gb_mode, per_value=(n <= 1200), writers=["mem2"])))
     # the value whose (column,value) hash is zero
     ds = dp.Dataset(new_id(), [{b"a": dp.HASH0_VALUE, b"b": b"1"}, {b"a": b"x"}, {b"a": dp.HASH0_VALUE}], "hash0")
     plan.append((ds, add_queries(ds, 5, gb_mode)))
-    sizes = [999, 1000, 1001, 2001, 4095, 4096, 4097] if tier == "quick" else [999, 1000, 1001, 2000, 2001, 4095, 4096, 4097, 65535, 65536, 65537, 150000]
+    # quick keeps the batch boundaries (1000 values / rows) and one container boundary; the
+    # 65536 boundary and 150k rows cost the extracted model a minute each: thorough only
+    sizes = [999, 1000, 1001, 2001, 4096] if tier == "quick" else [999, 1000, 1001, 2000, 2001, 4095, 4096, 4097, 65535, 65536, 65537, 150000]
     for n in sizes:
         uniq = n <= 2001 or (tier == "thorough" and n <= 4097)
         ds = dp.shaped_dataset(rng, new_id(), n, unique=uniq and focus != "count")
-        plan.append((ds, add_queries(ds, 30 if n <= 5000 else 12, gb_mode, per_value=(n <= 5000 or focus == "roundtrip"))))
-    if tier == "quick":
-        ds = dp.shaped_dataset(rng, new_id(), 65537)
-        plan.append((ds, add_queries(ds, 8, gb_mode, per_value=False, writers=["mem", "big"])))
+        plan.append((ds, add_queries(ds, 30 if n <= 5000 else 12, gb_mode, per_value=((n <= 2001 if tier == "quick" else n <= 5000) or (focus == "roundtrip" and tier != "quick")))))
     return plan
 
 
